@@ -427,6 +427,8 @@ func (s *stream) wait() {
 		s.streamFinishedWithEndEventCh = true
 	}
 
+	verifHook("wait.signal")
+
 	if !s.balancing {
 		close(s.stopCh)
 	}
